@@ -546,6 +546,11 @@ class HistoryRunner:
     def _new_value(self, name):
         info = self.settable[name]
         cur = self.ref.indep.get(name)
+        live = self.real._values.get(name) if hasattr(self.real, "_values") else None
+        if live is not None and self.rng.random() < 0.06:
+            # a move that proposes the current point: the very object the state already holds is assigned again
+            self.c("assignments_of_the_object_already_held")
+            return live
         if info.get("weighted"):
             self.c("weighted_assignments")
             return self._new_weighted(name, cur)
